@@ -13,12 +13,13 @@ Theorem C13_source_facts_local :
   C13Facts.local_tmp_suffix = tmp_suffix /\ C13Facts.local_list_suffix_filter = tmp_suffix /\
   C13Facts.local_tmp_in_parent = true /\ C13Facts.local_mkdir_parents = true /\
   C13Facts.local_temp_then_replace = true /\ C13Facts.local_destination_only_renamed_onto = true /\
+  C13Facts.local_download_size_of_open_file = true /\ C13Facts.local_download_reads_whole_file = true /\
   C13Facts.local_delete_missing_ok = true /\
   C13Facts.local_exists_is_path_exists = true /\ C13Facts.local_list_empty_only_when_missing = true /\
   C13Facts.local_list_split = true /\ C13Facts.local_list_slice_by_scanned_dir = true /\
   C13Facts.local_list_first_level_filter = true.
-Proof. exact (conj eq_refl (conj eq_refl (conj eq_refl (conj eq_refl (conj eq_refl (conj eq_refl (conj eq_refl
-             (conj eq_refl (conj eq_refl (conj eq_refl (conj eq_refl eq_refl))))))))))). Qed.
+Proof. exact (conj eq_refl (conj eq_refl (conj eq_refl (conj eq_refl (conj eq_refl (conj eq_refl (conj eq_refl (conj eq_refl (conj eq_refl
+             (conj eq_refl (conj eq_refl (conj eq_refl (conj eq_refl eq_refl))))))))))))). Qed.
 Print Assumptions C13_source_facts_local.
 
 Theorem C13_source_facts_services :
